@@ -270,7 +270,7 @@ theorem walking_and_accepting_show_the_stored_entries (m : Int) (src : List (Lis
     (s.hpos = -1 ∨ (1 ≤ s.hpos ∧ s.hpos ≤ s.src.length ∧
       s.line = s.src.getD ((s.src.length : Int) - s.hpos).toNat [])) ∧
     ∃ more, s.src = src ++ more := by
-  obtain ⟨i, more, e⟩ := run_inv m ops { src := src } s (inv_start src) h
+  obtain ⟨i, more, e⟩ := Calls.run_inv m ops { src := src } s (Calls.inv_start src) h
   exact ⟨i.oe, more, e⟩
 
 -- non-vacuity with a search: history [ab, b, abc], `a` typed, prefix search backward twice: `abc` then `ab`
